@@ -286,3 +286,82 @@ func TestReplay(t *testing.T) { vk.Replay(t) }
 var subFuzz = vk.Register(&vk.Sub[Case]{Name: "listings_fuzz", Gen: gen, Check: check})
 
 func FuzzSub_listings_fuzz(f *testing.F) { vk.RunFuzz(f, subFuzz) }
+
+// ---------------------------------------------------------------------------------------
+// corpus: the distributed sample listing, read by poly and by a reference format-31 reader.
+
+type CorpusCase struct {
+	File string `json:"file"`
+}
+
+func checkCorpus(c CorpusCase) error {
+	b, err := os.ReadFile(c.File)
+	if err != nil {
+		return vk.Harnessf("%v", err)
+	}
+	// reference reader: supplier table = lines "<indent><code><8 blanks><name>" after the header line;
+	// records = runs of <1>..<8> lines
+	lines := strings.Split(string(b), "\n")
+	table := map[rune]string{}
+	inTable := false
+	var recs []Rec
+	var cur *Rec
+	for _, l := range lines {
+		if l == tableHeader {
+			inTable = true
+			continue
+		}
+		if strings.HasPrefix(l, "<1>") {
+			inTable = false
+		}
+		if inTable {
+			t := strings.TrimLeft(l, " \t")
+			if len(t) > 9 && strings.TrimSpace(t[1:9]) == "" {
+				table[rune(t[0])] = t[9:]
+			}
+			continue
+		}
+		if len(l) >= 3 && l[0] == '<' && l[2] == '>' && l[1] >= '1' && l[1] <= '8' {
+			v := l[3:]
+			switch l[1] {
+			case '1':
+				recs = append(recs, Rec{Name: v})
+				cur = &recs[len(recs)-1]
+			case '2':
+				cur.Iso = v
+			case '3':
+				cur.Site = v
+			case '4':
+				cur.Meth = v
+			case '5':
+				cur.Org = v
+			case '6':
+				cur.Src = v
+			case '7':
+				cur.Letters = v
+			case '8':
+				cur.Refs = []string{v}
+			}
+		}
+	}
+	cc := Case{Records: recs}
+	for code, name := range table {
+		cc.Suppliers = append(cc.Suppliers, Supplier{Code: string(code), Name: name})
+	}
+	if len(recs) < 10 || len(table) < 5 {
+		return vk.Harnessf("reference reader found only %d records and %d suppliers in %s", len(recs), len(table), c.File)
+	}
+	got, err := rebase.Read(c.File)
+	if err != nil {
+		return vk.Errf("Read(%s): %v", c.File, err)
+	}
+	return compare("Read("+c.File+") vs reference reader", cc, got)
+}
+
+var subCorpus = vk.Register(&vk.Sub[CorpusCase]{Name: "corpus", Check: checkCorpus, NonTrivial: func(CorpusCase) bool { return true }})
+
+func TestSub_corpus(t *testing.T) {
+	vk.RunEnum(t, subCorpus, "the distributed sample io/rebase/data/rebase_test.txt (92 records)", true, func(yield func(CorpusCase) bool) {
+		yield(CorpusCase{File: "/repo/io/rebase/data/rebase_test.txt"})
+	})
+}
